@@ -161,6 +161,10 @@ def _world_c16(tier, seed, idx):
         if idx < n_enum:
             return _enum_world_c16(idx)
         idx = idx - n_enum + (1 << 20)  # keep the random part disjoint from the quick tier's indices
+    return _world_c16_seeded(tier, seed, idx)
+
+
+def _world_c16_seeded(tier, seed, idx):
     K = K_BUCKET["C16"]
     b = _bucket_c16(rng_for(seed, "C16", tier, "bucket", idx // K))
     rng = rng_for(seed, "C16", tier, "run", idx)
@@ -169,6 +173,24 @@ def _world_c16(tier, seed, idx):
     w["key_seed"] = rng.randrange(2**31)
     L = _pick_L(rng, tier)
     v, faults = _val_sequence(rng, L)
+    # RELATED HISTORY (own random stream, so the other worlds are those of the earlier generator): a quarter of the
+    # runs re-use a prefix of the loss sequence of the run executed just before them in the same process (same bucket,
+    # same loop) and then depart from it - the shape of history under which state carried over between calls
+    # (a memoised running minimum, a cached argmin, a resumable counter) would be trusted although it is stale
+    rel = rng_for(seed, "C16", tier, "related", idx)
+    if idx % K != 0 and rel.random() < 0.25:
+        prev = _world_c16_seeded(tier, seed, idx - 1)
+        pv = prev.get("aimed_val") if prev.get("loop") == "data" else prev.get("script")
+        if pv:
+            j = rel.randint(1, len(pv))
+            fresh = [x for x in v if x not in pv[:j]]
+            extra = [float(x) for x in rel.sample(range(-60, -30), 3)]  # new minima after the shared prefix
+            tail = fresh[: max(0, L - j)]
+            if rel.random() < 0.6:
+                tail.insert(rel.randint(0, len(tail)), extra[0])
+            v = list(pv[:j]) + tail
+            L = len(v)
+            faults["related_history"] = 1
     w.update(_common_knobs(rng))
     w["tail"] = rng.choice(
         [{"kind": "inc", "base": 5000.0}, {"kind": "inc", "base": 5000.0}, {"kind": "dec", "base": -5000.0}, {"kind": "const", "base": 0.0}]
